@@ -45,6 +45,15 @@ def mkfont(r, npal, zero_advance=False):
     for i in range(4):
         cx, cy, n, s = r.randint(200, 800), r.randint(0, 600), r.randint(3, 6), r.randint(80, 250)
         shapes[f"s{i}"] = [(int(cx + s * math.cos(2 * math.pi * k / n + 0.3)), int(cy + s * math.sin(2 * math.pi * k / n + 0.3))) for k in range(n)]
+    # curved outlines: a quadratic blob with on-curve points, and (TrueType allows it) a contour made of off-curve
+    # points only, which pens receive as qCurveTo(..., None)
+    curved = {}
+    if r.random() < 0.5:
+        for nm in ("q0", "q1"):
+            cx, cy, n, s = r.randint(200, 800), r.randint(0, 600), r.randint(3, 6), r.randint(80, 250)
+            pts = [(int(cx + s * math.cos(2 * math.pi * k / n + 0.7)), int(cy + s * math.sin(2 * math.pi * k / n + 0.7))) for k in range(n)]
+            shapes[nm] = pts
+            curved[nm] = nm == "q1" or r.random() < 0.5  # True: no on-curve point at all
     order = [".notdef", "A", "B"] + list(shapes) + ["comp"]
     fb = FontBuilder(1000, isTTF=True)
     fb.setupGlyphOrder(order)
@@ -54,7 +63,17 @@ def mkfont(r, npal, zero_advance=False):
     if zero_advance:
         hm["B"] = (0, 0)  # a colour glyph with no advance (a combining mark)
     for n, pts in shapes.items():
-        glyphs[n] = poly(pts)
+        if n in curved:
+            pen = TTGlyphPen(None)
+            if curved[n]:
+                pen.qCurveTo(*pts, None)
+            else:
+                pen.moveTo(pts[0])
+                pen.qCurveTo(*pts[1:], pts[0])
+            pen.closePath()
+            glyphs[n] = pen.glyph()
+        else:
+            glyphs[n] = poly(pts)
         hm[n] = (1000, min(p[0] for p in pts))
     # a composite glyph: s0 + shifted s1
     pen = TTGlyphPen({k: v for k, v in glyphs.items()})
